@@ -151,6 +151,25 @@ func (a absOp) resolve(cl *[3]client) (opA, bool) {
 		o.Ck, o.Label = c.Jar, "cookie=own-jar"
 		return o, o.Ck != ""
 	}
+	if strings.HasPrefix(a.Which, "near:") {
+		// near-miss of the client's current token: "near:<derivation>:<where>"
+		f := strings.Split(a.Which, ":")
+		t := c.Cur
+		if t == "" {
+			return o, false
+		}
+		d := nearMiss(t, f[1])
+		switch f[2] {
+		case "both":
+			o.Tok, o.Ck = d, d
+		case "token":
+			o.Tok, o.Ck = d, t
+		case "cookie":
+			o.Tok, o.Ck = t, d
+		}
+		o.Label = "near-miss of own current token " + t + ": " + f[1] + " presented as " + f[2]
+		return o, true
+	}
 	switch a.Which {
 	case "cur":
 		o.Tok = c.Cur
@@ -209,6 +228,41 @@ func famOps(cfg cfgA) []absOp {
 	return ops
 }
 
+// nearMiss derives a value that differs from token t in exactly one respect.
+func nearMiss(t, how string) string {
+	switch how {
+	case "truncated":
+		return t[:len(t)-1]
+	case "extended":
+		return t + "0"
+	case "upper":
+		return strings.ToUpper(t)
+	case "last-byte":
+		return t[:len(t)-1] + "x"
+	}
+	panic("unknown near-miss " + how)
+}
+
+var nearMissKinds = []string{"truncated", "extended", "upper", "last-byte"}
+
+// famTails is the near-miss dimension: unsafe requests tried only as the LAST step of a short history,
+// presenting a value derived from the client's current token (one byte shorter, one byte longer, other
+// case, last byte changed) as token and cookie (store lookup with a neighbouring key), as token next to the
+// genuine cookie, and as cookie next to the genuine token (double-submit comparison).
+func famTails(cfg cfgA) []absOp {
+	var out []absOp
+	wheres := []string{"both", "token", "cookie"}
+	if cfg.sameSlot() {
+		wheres = wheres[:1]
+	}
+	for _, k := range nearMissKinds {
+		for _, w := range wheres {
+			out = append(out, absOp{Kind: 'U', Cl: 0, Which: "near:" + k + ":" + w})
+		}
+	}
+	return out
+}
+
 // famPrefixes: every history starts with the requests that issue the tokens (base layout).
 var famPrefixes = [][]absOp{
 	{{Kind: 'S', Cl: 0, Which: "none"}},
@@ -219,10 +273,7 @@ func famConfigs(quick bool) []cfgA {
 	var out []cfgA
 	tick := []int{1} // idle+1s: every stored token expires
 	add := func(ext, be string, su bool, freeShared, freeFresh int) {
-		tk := tick
-		if be == "builtin" {
-			tk = nil // utils.Timestamp(): wall clock, not ownable
-		}
+		tk := tick // also for the middleware's own store: a tick ages its entries (see runState.step)
 		out = append(out,
 			cfgA{Extractor: ext, Backend: be, SingleUse: su, Ticks: tk, Layouts: true, Ctx: "shared", Free: freeShared},
 			cfgA{Extractor: ext, Backend: be, SingleUse: su, Ticks: tk, Layouts: true, Ctx: "fresh", Free: freeFresh})
@@ -258,13 +309,17 @@ func famConfigs(quick bool) []cfgA {
 	return out
 }
 
-type famStat struct{ Nodes, Requests, Pruned int64 }
+type famStat struct{ Nodes, Requests, Pruned, Tails int64 }
 
 func runC(r *core.Run, col *collector, samples *[]any, only string) map[string]any {
 	if len(forgedSame) != len(fmt.Sprintf("tok-%04d", 1)) {
 		core.Fatal("forgedSame must have the length of the generated tokens")
 	}
 	cfgs := famConfigs(r.Quick())
+	tailDepth := 1 // near-miss requests follow the issuing prefix plus at most this many free steps
+	if !r.Quick() {
+		tailDepth = 2
+	}
 	type item struct{ cfg, prefix, first int }
 	var items []item
 	alph := make([][]absOp, len(cfgs))
@@ -288,20 +343,30 @@ func runC(r *core.Run, col *collector, samples *[]any, only string) map[string]a
 	r.Parallel(len(items), func(ii int, l *core.Local) {
 		it := items[ii]
 		cfg, ops, prefix := cfgs[it.cfg], alph[it.cfg], famPrefixes[it.prefix]
+		tails := famTails(cfg)
 		var st famStat
 		node, sampled := 0, false
 		// runNode replays prefix+seq on a fresh app and judges the last operation
-		runNode := func(seq []int) bool {
+		runNode := func(seq []int, tail *absOp) bool {
 			throttle()
 			rs := newRunState(cfg)
-			hist := make([]opA, 0, len(prefix)+len(seq))
+			n := len(prefix) + len(seq)
+			if tail != nil {
+				n++
+			}
+			hist := make([]opA, 0, n)
 			var si stepInfo
-			for k := 0; k < len(prefix)+len(seq); k++ {
+			for k := 0; k < n; k++ {
 				a := absOp{}
 				if k < len(prefix) {
 					a = prefix[k]
-				} else {
+				} else if k < len(prefix)+len(seq) {
 					a = ops[seq[k-len(prefix)]]
+				} else {
+					a = *tail
+					if rs.m.isLive(rs.cl[0].Cur) {
+						l.Add("A.nearmiss.base_token_live", 1)
+					}
 				}
 				o, ok := a.resolve(&rs.cl)
 				if !ok {
@@ -316,8 +381,14 @@ func runC(r *core.Run, col *collector, samples *[]any, only string) map[string]a
 			}
 			node++
 			st.Nodes++
+			if tail != nil {
+				st.Tails++
+				if !si.ob.Reached {
+					l.Add("A.nearmiss.rejected."+si.Why, 1)
+				}
+			}
 			rs.judge(hist, si, &judgeCtx{l: l, col: col, ord: [4]int{2, it.cfg*8 + it.prefix, it.first, node}})
-			if !sampled && it.first%11 == 3 && len(seq) == cfg.Free && it.prefix == 1 {
+			if !sampled && it.first%11 == 3 && len(seq) == cfg.Free && it.prefix == 1 && tail == nil {
 				sampled = true
 				smu.Lock()
 				fsamples = append(fsamples, map[string]any{"harness": "A", "config": cfg.name(), "history": histStrings(hist)})
@@ -331,11 +402,24 @@ func runC(r *core.Run, col *collector, samples *[]any, only string) map[string]a
 				r.Cap("wall-clock budget reached inside the request-layout family of harness A")
 				return
 			}
-			if !runNode(seq) || len(seq) >= cfg.Free {
+			if !runNode(seq, nil) {
+				return
+			}
+			if len(seq) <= tailDepth {
+				for ti := range tails {
+					runNode(seq, &tails[ti])
+				}
+			}
+			if len(seq) >= cfg.Free {
 				return
 			}
 			for i := range ops {
 				rec(append(seq[:len(seq):len(seq)], i))
+			}
+		}
+		if it.first == 0 {
+			for ti := range tails { // right after the issuing prefix
+				runNode(nil, &tails[ti])
 			}
 		}
 		rec([]int{it.first})
@@ -343,6 +427,7 @@ func runC(r *core.Run, col *collector, samples *[]any, only string) map[string]a
 		stats[it.cfg].Nodes += st.Nodes
 		stats[it.cfg].Requests += st.Requests
 		stats[it.cfg].Pruned += st.Pruned
+		stats[it.cfg].Tails += st.Tails
 		smu.Unlock()
 	})
 	per := map[string]any{}
@@ -352,8 +437,9 @@ func runC(r *core.Run, col *collector, samples *[]any, only string) map[string]a
 			continue
 		}
 		s := stats[ci]
-		per[c.name()] = map[string]any{"free_steps": c.Free, "alphabet": len(alph[ci]), "histories": s.Nodes, "requests": s.Requests, "pruned_not_applicable": s.Pruned}
+		per[c.name()] = map[string]any{"free_steps": c.Free, "alphabet": len(alph[ci]), "histories": s.Nodes, "requests": s.Requests, "pruned_not_applicable": s.Pruned, "near_miss_histories": s.Tails}
 		tot.Nodes += s.Nodes
+		tot.Tails += s.Tails
 		tot.Requests += s.Requests
 		tot.Pruned += s.Pruned
 		if only != "" {
@@ -362,6 +448,7 @@ func runC(r *core.Run, col *collector, samples *[]any, only string) map[string]a
 	}
 	r.Add("A.layouts.histories", tot.Nodes)
 	r.Add("A.layouts.requests", tot.Requests)
+	r.Add("A.nearmiss.histories", tot.Tails)
 	sort.Slice(fsamples, func(i, j int) bool { return fmt.Sprint(fsamples[i]) < fmt.Sprint(fsamples[j]) })
 	if len(fsamples) > 2 {
 		fsamples = fsamples[:2]
@@ -376,8 +463,10 @@ func runC(r *core.Run, col *collector, samples *[]any, only string) map[string]a
 	return map[string]any{
 		"bounds":    map[string]any{"clients": []string{"U", "V"}, "issuing_prefixes": len(famPrefixes), "free_steps_per_config": frees, "idle_timeout": idle.String(), "never_issued_token": forgedSame},
 		"histories": tot.Nodes, "requests": tot.Requests, "pruned_not_applicable": tot.Pruned, "configs": len(per), "per_config": per,
+		"near_miss_histories": tot.Tails, "near_miss_after_free_steps_at_most": tailDepth,
+		"near_miss_tokens": "as the last request of a history of <= near_miss_after_free_steps_at_most free steps: a value derived from the client's current token (last byte dropped / one byte appended / upper case / last byte changed) presented as token and cookie, as token with the genuine cookie, as cookie with the genuine token",
 		"rule":           "every sequence of <= free_steps operations after an issuing prefix {U issues | U and V issue}, no state de-duplication (the bytes left in the RequestCtx buffers are hidden state); each history is a complete real execution on a fresh app whose last operation is judged against the reference token model",
-		"alphabet":       "U: safe request with own cookie x 4 cookie layouts, safe request without cookie, DeleteToken x 4 cookie layouts, unsafe request with token {own current, other client's} x 7 layouts (4 for the cookie extractor), own previous x 4, never issued token of the issued tokens' length x 3; V: safe / DeleteToken / unsafe with its own token x 2 layouts; tick idle+1s (not for the middleware's own store: wall clock)",
+		"alphabet":       "U: safe request with own cookie x 4 cookie layouts, safe request without cookie, DeleteToken x 4 cookie layouts, unsafe request with token {own current, other client's} x 7 layouts (4 for the cookie extractor), own previous x 4, never issued token of the issued tokens' length x 3; V: safe / DeleteToken / unsafe with its own token x 2 layouts; tick idle+1s",
 		"cookie_layouts": []string{"CSRF cookie alone", "after another cookie whose value has another length", "after another cookie whose value has the token's length", "before another cookie"},
 		"token_layouts":  []string{"first header / query argument / form field", "after another one whose value has another length", "after another one whose value has the token's length"},
 		"request_ctx":    []string{"shared: one RequestCtx per history, reset between requests (ResetUserValues, Request.Reset, Response.Reset)", "fresh: a new RequestCtx per request"},
